@@ -2244,6 +2244,51 @@ cleanup:
 }
 
 /**
+ * @brief Reverse the position metadata of a moved instance of a (leaf-)list with duplicate instances.
+ *
+ * The values cannot be simply switched, "orig-position" is the number of the instances preceding the moved one but
+ * "position" is the number of the instance to insert it after with the moved instance still counted on its previous place.
+ *
+ * @param[in] node Moved diff node.
+ * @param[in] mod Module of the metadata.
+ * @return LY_ERR value.
+ */
+static LY_ERR
+lyd_diff_reverse_position(struct lyd_node *node, const struct lys_module *mod)
+{
+    LY_ERR ret;
+    struct lyd_meta *meta1, *meta2;
+    uint32_t pos, orig_pos, cur_pos;
+    char buf[11];
+
+    meta1 = lyd_find_meta(node->meta, mod, "orig-position");
+    LY_CHECK_ERR_RET(!meta1, LOGERR_META(LYD_CTX(node), "orig-position", node), LY_EINVAL);
+
+    meta2 = lyd_find_meta(node->meta, mod, "position");
+    LY_CHECK_ERR_RET(!meta2, LOGERR_META(LYD_CTX(node), "position", node), LY_EINVAL);
+
+    /* empty string means the first instance */
+    orig_pos = strtoul(lyd_get_meta_value(meta1), NULL, 10);
+    pos = strtoul(lyd_get_meta_value(meta2), NULL, 10);
+
+    /* number of the instances preceding the moved instance now, its new original position */
+    cur_pos = (pos <= orig_pos) ? pos : pos - 1;
+
+    /* instance to insert it after to get it back, the moved instance is counted if preceding it */
+    pos = (orig_pos > cur_pos) ? orig_pos + 1 : orig_pos;
+
+    /* no change is fine */
+    sprintf(buf, "%" PRIu32, cur_pos);
+    ret = lyd_change_meta(meta1, cur_pos ? buf : "");
+    LY_CHECK_RET(ret && (ret != LY_ENOT), ret);
+    sprintf(buf, "%" PRIu32, pos);
+    ret = lyd_change_meta(meta2, pos ? buf : "");
+    LY_CHECK_RET(ret && (ret != LY_ENOT), ret);
+
+    return LY_SUCCESS;
+}
+
+/**
  * @brief Remove specific operation from all the nodes in a subtree.
  *
  * @param[in] diff Diff subtree to process.
@@ -2265,6 +2310,109 @@ lyd_diff_reverse_remove_op_r(struct lyd_node *diff, enum lyd_diff_op op)
 
         LYD_TREE_DFS_END(diff, elem);
     }
+
+    return LY_SUCCESS;
+}
+
+/**
+ * @brief Get the name of the metadata with the anchor of a user-ordered node ("key", "value", or "position").
+ *
+ * @param[in] schema Schema of the user-ordered node.
+ * @param[in] orig Whether to return the name of the metadata with the original anchor.
+ * @return Metadata name without a prefix.
+ */
+static const char *
+lyd_diff_userord_meta_name(const struct lysc_node *schema, ly_bool orig)
+{
+    if (lysc_is_dup_inst_list(schema)) {
+        return orig ? "orig-position" : "position";
+    } else if (schema->nodetype == LYS_LIST) {
+        return orig ? "orig-key" : "key";
+    }
+    return orig ? "orig-value" : "value";
+}
+
+/**
+ * @brief Rename the anchor metadata of a created/deleted user-ordered node whose operation was reversed.
+ *
+ * @param[in] node User-ordered diff node.
+ * @param[in] mod Module of the metadata.
+ * @param[in] to_orig Whether to rename the anchor to the original anchor (create reversed to delete) or the other way round.
+ * @return LY_ERR value.
+ */
+static LY_ERR
+lyd_diff_reverse_userord_anchor(struct lyd_node *node, const struct lys_module *mod, ly_bool to_orig)
+{
+    struct lyd_meta *meta;
+    const char *name = lyd_diff_userord_meta_name(node->schema, !to_orig);
+
+    meta = lyd_find_meta(node->meta, mod, name);
+    LY_CHECK_ERR_RET(!meta, LOGERR_META(LYD_CTX(node), name, node), LY_EINVAL);
+
+    LY_CHECK_RET(lyd_new_meta(NULL, node, mod, lyd_diff_userord_meta_name(node->schema, to_orig), lyd_get_meta_value(meta),
+            LYD_NEW_VAL_STORE_ONLY, NULL));
+    lyd_free_meta_single(meta);
+
+    return LY_SUCCESS;
+}
+
+/**
+ * @brief Finish reversing user-ordered nodes of a diff with all the operations already reversed. The inverse operations
+ * of a user-ordered (leaf-)list must be applied in the reverse order because every anchor is relative to the instances
+ * after all the previous operations. Also, created instances need an anchor, deleted ones the original anchor.
+ *
+ * @param[in,out] first First sibling of the reversed diff siblings to process, recursively.
+ * @param[in] mod Module of the diff metadata.
+ * @return LY_ERR value.
+ */
+static LY_ERR
+lyd_diff_reverse_userord_r(struct lyd_node **first, const struct lys_module *mod)
+{
+    struct lyd_node *node, *elem, *head;
+    enum lyd_diff_op op;
+
+    LY_LIST_FOR(*first, node) {
+        if (lysc_is_key(node->schema)) {
+            continue;
+        }
+        LY_CHECK_RET(lyd_diff_get_op(node, &op));
+
+        if ((op != LYD_DIFF_OP_CREATE) && (op != LYD_DIFF_OP_DELETE)) {
+            /* process descendant siblings */
+            if (lyd_child_no_keys(node)) {
+                LY_CHECK_RET(lyd_diff_reverse_userord_r(lyd_node_child_p(node), mod));
+            }
+            continue;
+        }
+
+        if (lysc_is_userordered(node->schema)) {
+            LY_CHECK_RET(lyd_diff_reverse_userord_anchor(node, mod, op == LYD_DIFF_OP_DELETE));
+        }
+
+        /* nested user-ordered nodes of a subtree to create need an anchor, nodes of a subtree to delete do not */
+        LYD_TREE_DFS_BEGIN(node, elem) {
+            if ((elem != node) && lysc_is_userordered(elem->schema)) {
+                if (op == LYD_DIFF_OP_CREATE) {
+                    LY_CHECK_RET(lyd_diff_add_create_nested_userord(elem));
+                } else {
+                    lyd_diff_del_meta(elem, lyd_diff_userord_meta_name(elem->schema, 0));
+                }
+            }
+            LYD_TREE_DFS_END(node, elem);
+        }
+    }
+
+    /* reverse the order of the instances of every user-ordered (leaf-)list */
+    LY_LIST_FOR(*first, node) {
+        head = node;
+        while (lysc_is_userordered(node->schema) && node->next && (node->next->schema == node->schema)) {
+            /* the first instance ends up being the last */
+            elem = node->next;
+            LY_CHECK_RET(lyd_insert_before(head, elem));
+            head = elem;
+        }
+    }
+    *first = lyd_first_sibling(*first);
 
     return LY_SUCCESS;
 }
@@ -2337,7 +2485,7 @@ lyd_diff_reverse_all(const struct lyd_node *src_diff, struct lyd_node **diff)
                         /* leaf-list move */
                         LY_CHECK_GOTO(ret = lyd_diff_reverse_default(elem, mod), cleanup);
                         if (lysc_is_dup_inst_list(elem->schema)) {
-                            LY_CHECK_GOTO(ret = lyd_diff_reverse_meta(elem, mod, "orig-position", "position"), cleanup);
+                            LY_CHECK_GOTO(ret = lyd_diff_reverse_position(elem, mod), cleanup);
                         } else {
                             LY_CHECK_GOTO(ret = lyd_diff_reverse_meta(elem, mod, "orig-value", "value"), cleanup);
                         }
@@ -2345,7 +2493,7 @@ lyd_diff_reverse_all(const struct lyd_node *src_diff, struct lyd_node **diff)
                     case LYS_LIST:
                         /* list move */
                         if (lysc_is_dup_inst_list(elem->schema)) {
-                            LY_CHECK_GOTO(ret = lyd_diff_reverse_meta(elem, mod, "orig-position", "position"), cleanup);
+                            LY_CHECK_GOTO(ret = lyd_diff_reverse_position(elem, mod), cleanup);
                         } else {
                             LY_CHECK_GOTO(ret = lyd_diff_reverse_meta(elem, mod, "orig-key", "key"), cleanup);
                         }
@@ -2374,6 +2522,9 @@ lyd_diff_reverse_all(const struct lyd_node *src_diff, struct lyd_node **diff)
             LYD_TREE_DFS_END(root, elem);
         }
     }
+
+    /* user-ordered nodes need their anchors and order adjusted */
+    LY_CHECK_GOTO(ret = lyd_diff_reverse_userord_r(diff, mod), cleanup);
 
 cleanup:
     if (ret) {
